@@ -286,7 +286,9 @@ class PatchWriter(AbstractContextManager, HandlesDataChunk):
             self._num_processed += len(data)
             self._shards = []
 
-            data.tofile(self.open())  # ensure file is ready for writing
+            # not ndarray.tofile(): small arrays end up in a C-level buffer and
+            # an error when that is flushed (disk full, quota) goes unnoticed
+            self.open().write(data.tobytes())  # ensure file is ready for writing
 
     def close(self) -> None:
         """Flushes the internal cache and closes the file."""
